@@ -3,11 +3,13 @@
 From BT Require Import Base.Util.
 From BT Require Base.Float Model.RTree Model.BBIFile Model.BigWigWrite Model.Pipeline Model.TempBuf
   Model.BigBedWrite Proofs.BedZoomFit Proofs.PipelineInv Proofs.PipelineThms Proofs.PipelineConv Proofs.PipelineLanes
-  Model.PipelineConc Proofs.PipelineRefine Properties.C11.
+  Model.PipelineConc Proofs.PipelineRefine Proofs.PipelineLanesProgress Model.PipelineZoom Proofs.PipelineZoom
+  Proofs.PipelineZoomProgress Properties.C11.
 
 Module PinC11.
 Import Base.Float Model.RTree Model.BBIFile Model.BigWigWrite Model.Pipeline Proofs.PipelineInv Proofs.PipelineThms
-  Proofs.PipelineConv Proofs.PipelineLanes Model.PipelineConc Proofs.PipelineRefine Properties.C11.
+  Proofs.PipelineConv Proofs.PipelineLanes Model.PipelineConc Proofs.PipelineRefine Proofs.PipelineLanesProgress
+  Model.PipelineZoom Proofs.PipelineZoom Proofs.PipelineZoomProgress Properties.C11.
 Check (C11_fifo_order : forall g pre Ss sched, g_fifo g = true ->
   let s := run g sched (init pre Ss) in
   length (p_chroms s) = length Ss /\
@@ -115,4 +117,59 @@ Check (C11_splice_concrete : forall g np pre Ss opss sched, g_fifo g = true ->
   sp_file (cabs s) = pre ++ data_bytes (concat (firstn (sp_k (cabs s)) Ss)) /\
   (cterminal s = true ->
      sp_file (cabs s) = seq_file pre Ss /\ final_index (Nlen pre) (cabs s) = seq_index pre Ss)).
+Check (C11_lanes_progress : forall g Ps Sss K sched, g_fifo g = true -> (1 <= g_cap g)%nat -> (1 <= g_win g)%nat ->
+  length Ps = length Sss -> (1 <= length Sss)%nat -> Forall (fun Ss => length Ss = K) Sss ->
+  let s := lrun g sched (linit Ps Sss) in
+  lterminal s = false -> exists t s', lstep g t s = Some s').
+Check (C11_lanes_completion : forall g Ps Sss K sched, g_fifo g = true -> (1 <= g_cap g)%nat -> (1 <= g_win g)%nat ->
+  length Ps = length Sss -> (1 <= length Sss)%nat -> Forall (fun Ss => length Ss = K) Sss ->
+  (forall t s', lstep g t (lrun g sched (linit Ps Sss)) = Some s' ->
+                (lmeasure s' < lmeasure (lrun g sched (linit Ps Sss)))%nat) /\
+  exists more, lterminal (lrun g (sched ++ more) (linit Ps Sss)) = true).
+Check (C11_lanes_waits : forall g Ps Sss K sched, g_fifo g = true -> (1 <= g_cap g)%nat ->
+  length Ps = length Sss -> (1 <= length Sss)%nat -> Forall (fun Ss => length Ss = K) Sss ->
+  let s := lrun g sched (linit Ps Sss) in
+  (l_ph s <> LRecv -> l_ph s <> LDone -> (l_k s < l_started s)%nat /\ (l_started s <= K)%nat) /\
+  (forall j, l_ph s = LAwaitFile j -> exists s', lstep g LSplice s = Some s') /\
+  (forall l k c, (l < length Sss)%nat -> (k < l_started s)%nat ->
+     nth_error (nth l (l_lanes s) []) k = Some c -> c_todo c <> [] ->
+     (exists s', lstep g (LProd l k) s = Some s') \/
+     (exists t s', lstep g t s = Some s' /\ (t = LWrite l k \/ t = LEnc l k 0)))).
+Check (C11_zoom_levels_splice : forall g o ress pre Sss K sched, g_fifo g = true ->
+  length ress = length Sss -> (1 <= length Sss)%nat -> Forall (fun Ss => length Ss = K) Sss ->
+  let s := zrun g o ress sched (zinit pre Sss) in
+  forall l, (l < length Sss)%nat ->
+    (exists sp, nth_error (z_sp s) l = Some sp /\
+       zs_store sp = data_bytes (concat (firstn (zs_k sp) (nth l Sss []))) /\
+       (zs_pc sp = SDone -> zs_store sp = data_bytes (concat (nth l Sss [])))) /\
+    (forall k c, nth_error (nth l (z_lanes s) []) k = Some c ->
+       c_out c ++ map fst (c_fifo c) ++ c_todo c = nth k (nth l Sss []) [])).
+Check (C11_zoom_assembly : forall g o ress pre Sss K sched, g_fifo g = true ->
+  length ress = length Sss -> (1 <= length Sss)%nat -> Forall (fun Ss => length Ss = K) Sss ->
+  let s := zrun g o ress sched (zinit pre Sss) in
+  (exists b, write_zooms_two_pass o (Nlen pre) (firstn (z_asm s) (zlevels ress Sss)) = Ok (b, z_hdrs s) /\
+             z_file s = pre ++ b) /\
+  (zterminal s = true ->
+     exists zbytes, write_zooms_two_pass o (Nlen pre) (zlevels ress Sss) = Ok (zbytes, z_hdrs s) /\
+                    z_file s = pre ++ zbytes)).
+Check (C11_zoom_assembly_bigwig : forall fp o outs zsizes zooms,
+  mapM (fun size => do secs <- concat_res (map (fun c => zoom_sections fp (o_ips o) size (co_id c) (co_vals c)) outs);
+                    Ok {| zl_res := size; zl_secs := secs |}) zsizes = Ok zooms ->
+  exists Sss,
+    Forall2 (fun size Ss => Forall2 (fun c S => zoom_sections fp (o_ips o) size (co_id c) (co_vals c) = Ok S) outs Ss) zsizes Sss /\
+    zooms = zlevels zsizes Sss /\
+    forall g pre sched, g_fifo g = true -> (1 <= length zsizes)%nat ->
+      let s := zrun g o zsizes sched (zinit pre Sss) in
+      zterminal s = true ->
+      exists zbytes, write_zooms_two_pass o (Nlen pre) zooms = Ok (zbytes, z_hdrs s) /\ z_file s = pre ++ zbytes).
+Check (C11_zoom_progress : forall g o ress pre Sss K sched zb hs, g_fifo g = true -> (1 <= g_cap g)%nat -> (1 <= g_win g)%nat ->
+  length ress = length Sss -> (1 <= length Sss)%nat -> Forall (fun Ss => length Ss = K) Sss ->
+  write_zooms_two_pass o (Nlen pre) (zlevels ress Sss) = Ok (zb, hs) ->
+  let s := zrun g o ress sched (zinit pre Sss) in
+  zterminal s = false -> exists t s', zstep g o ress t s = Some s').
+Check (C11_zoom_completion : forall g o ress pre Sss K sched zb hs, g_fifo g = true -> (1 <= g_cap g)%nat -> (1 <= g_win g)%nat ->
+  length ress = length Sss -> (1 <= length Sss)%nat -> Forall (fun Ss => length Ss = K) Sss ->
+  write_zooms_two_pass o (Nlen pre) (zlevels ress Sss) = Ok (zb, hs) ->
+  exists more, let s := zrun g o ress (sched ++ more) (zinit pre Sss) in
+    zterminal s = true /\ z_file s = pre ++ zb /\ z_hdrs s = hs).
 End PinC11.
